@@ -1,0 +1,393 @@
+// Copyright 2020-2025 Buf Technologies, Inc.
+//
+// Licensed under the Apache License, Version 2.0 (the "License");
+// you may not use this file except in compliance with the License.
+// You may obtain a copy of the License at
+//
+//      http://www.apache.org/licenses/LICENSE-2.0
+//
+// Unless required by applicable law or agreed to in writing, software
+// distributed under the License is distributed on an "AS IS" BASIS,
+// WITHOUT WARRANTIES OR CONDITIONS OF ANY KIND, either express or implied.
+// See the License for the specific language governing permissions and
+// limitations under the License.
+
+//go:build verif
+
+package bufcheckserverhandle
+
+// Contracts for the gocv verifier: deletion rules (C03: every deletion that the rule documents as breaking is
+// annotated at the documented element; C04: nothing is annotated when nothing was deleted). Comment-only.
+// Spec functions, lemmas and axioms (prefix b_), the contracts of the bufprotosource index helpers, of the plugin
+// SDK sink and of (*responseWriter).AddProtosourceAnnotation are in /verif/specs/C03_nodelete.spec.
+// Shape of every handler contract: "deleted-reported" {C03} (some element of the previous version is gone and not
+// exempt ==> at least one more annotation, at the documented location / file) and "nothing-deleted-silent" {C04}
+// (no such element ==> annotation count, locations and file names are unchanged). The number of annotations per
+// deleted element is not claimed (no set cardinality in the spec language).
+// Known failing obligation on the tree (suspected defect, kept on purpose):
+// checkEnumValueNoDeleteWithRules#inv-step[0.in-current-file] (the handler passes previousEnum.File().Path()).
+//
+// FIELD_NO_DELETE*: the exemption is exactly the reservation the rule demands.
+//@ pure func isDeletedFieldAllowedWithRules(previousField, message, allowIfNumberReserved, allowIfNameReserved) (r)
+//@   property C03 C04
+//@   reveal b_fieldExempt
+//@   ensures exempt-iff-reserved: r <==> b_fieldExempt(previousField, message, allowIfNumberReserved, allowIfNameReserved)
+//
+//@ func checkFieldNoDeleteWithRules(responseWriter, previousMessage, message, allowIfNumberReserved, allowIfNameReserved) (err)
+//@   property C03 C04
+//@   canary ensures ghost.annCount == old(ghost.annCount)
+//@   modifies ghost.annCount, ghost.annLocs, ghost.annFiles
+//@   reveal b_fieldDeletionBreaks, b_hasFieldNumber
+//@   ensures deleted-reported {C03}: err == nil && (exists j int :: b_fieldDeletionBreaks(previousMessage, message, j, allowIfNumberReserved, allowIfNameReserved)) ==> ghost.annCount > old(ghost.annCount) && message.Location() in ghost.annLocs && message.File().Path() in ghost.annFiles
+//@   ensures nothing-deleted-silent {C04}: !(exists j int :: b_fieldDeletionBreaks(previousMessage, message, j, allowIfNumberReserved, allowIfNameReserved)) ==> ghost.annCount == old(ghost.annCount) && ghost.annLocs == old(ghost.annLocs) && ghost.annFiles == old(ghost.annFiles)
+//@   loop 0 invariant ghost.annCount >= old(ghost.annCount) && (forall k int :: k in $visited ==> k in previousNumberToField)
+//@   loop 0 invariant (exists k int :: k in $visited && !(k in numberToField) && !b_fieldExempt(previousNumberToField[k], message, allowIfNumberReserved, allowIfNameReserved)) ==> ghost.annCount > old(ghost.annCount) && message.Location() in ghost.annLocs && message.File().Path() in ghost.annFiles
+//@   loop 0 invariant (forall k int :: k in $visited ==> k in numberToField || b_fieldExempt(previousNumberToField[k], message, allowIfNumberReserved, allowIfNameReserved)) ==> ghost.annCount == old(ghost.annCount) && ghost.annLocs == old(ghost.annLocs) && ghost.annFiles == old(ghost.annFiles)
+//
+// The three rules select the exemption: none / number reserved / name reserved.
+//@ func handleBreakingFieldNoDelete(responseWriter, request, message, previousMessage) (err)
+//@   property C03 C04
+//@   modifies ghost.annCount, ghost.annLocs, ghost.annFiles
+//@   reveal b_fieldDeletionBreaks, b_fieldExempt
+//@   ensures deleted-reported {C03}: err == nil && (exists j int :: 0 <= j && j < len(previousMessage.Fields()) && !b_hasFieldNumber(message, previousMessage.Fields()[j].Number())) ==> ghost.annCount > old(ghost.annCount) && message.Location() in ghost.annLocs && message.File().Path() in ghost.annFiles
+//@   ensures nothing-deleted-silent {C04}: !(exists j int :: 0 <= j && j < len(previousMessage.Fields()) && !b_hasFieldNumber(message, previousMessage.Fields()[j].Number())) ==> ghost.annCount == old(ghost.annCount) && ghost.annLocs == old(ghost.annLocs) && ghost.annFiles == old(ghost.annFiles)
+//
+//@ func handleBreakingFieldNoDeleteUnlessNumberReserved(responseWriter, request, message, previousMessage) (err)
+//@   property C03 C04
+//@   modifies ghost.annCount, ghost.annLocs, ghost.annFiles
+//@   reveal b_fieldDeletionBreaks, b_fieldExempt
+//@   ensures deleted-reported {C03}: err == nil && (exists j int :: 0 <= j && j < len(previousMessage.Fields()) && !b_hasFieldNumber(message, previousMessage.Fields()[j].Number()) && !b_numReserved(previousMessage.Fields()[j].Number(), message.ReservedTagRanges())) ==> ghost.annCount > old(ghost.annCount) && message.Location() in ghost.annLocs && message.File().Path() in ghost.annFiles
+//@   ensures nothing-deleted-silent {C04}: !(exists j int :: 0 <= j && j < len(previousMessage.Fields()) && !b_hasFieldNumber(message, previousMessage.Fields()[j].Number()) && !b_numReserved(previousMessage.Fields()[j].Number(), message.ReservedTagRanges())) ==> ghost.annCount == old(ghost.annCount) && ghost.annLocs == old(ghost.annLocs) && ghost.annFiles == old(ghost.annFiles)
+//
+//@ func handleBreakingFieldNoDeleteUnlessNameReserved(responseWriter, request, message, previousMessage) (err)
+//@   property C03 C04
+//@   modifies ghost.annCount, ghost.annLocs, ghost.annFiles
+//@   reveal b_fieldDeletionBreaks, b_fieldExempt
+//@   ensures deleted-reported {C03}: err == nil && (exists j int :: 0 <= j && j < len(previousMessage.Fields()) && !b_hasFieldNumber(message, previousMessage.Fields()[j].Number()) && !b_nameReserved(previousMessage.Fields()[j].Name(), message.ReservedNames())) ==> ghost.annCount > old(ghost.annCount) && message.Location() in ghost.annLocs && message.File().Path() in ghost.annFiles
+//@   ensures nothing-deleted-silent {C04}: !(exists j int :: 0 <= j && j < len(previousMessage.Fields()) && !b_hasFieldNumber(message, previousMessage.Fields()[j].Number()) && !b_nameReserved(previousMessage.Fields()[j].Name(), message.ReservedNames())) ==> ghost.annCount == old(ghost.annCount) && ghost.annLocs == old(ghost.annLocs) && ghost.annFiles == old(ghost.annFiles)
+//
+// ONEOF_NO_DELETE: a (non-synthetic) oneof of the previous message whose name is gone is reported at the message.
+//@ func handleBreakingOneofNoDelete(responseWriter, request, message, previousMessage) (err)
+//@   property C03 C04
+//@   modifies ghost.annCount, ghost.annLocs, ghost.annFiles
+//@   reveal b_oneofDeletionBreaks, b_hasOneofName
+//@   ensures deleted-reported {C03}: err == nil && (exists j int :: b_oneofDeletionBreaks(previousMessage, message, j)) ==> ghost.annCount > old(ghost.annCount) && message.Location() in ghost.annLocs && message.File().Path() in ghost.annFiles
+//@   ensures nothing-deleted-silent {C04}: !(exists j int :: b_oneofDeletionBreaks(previousMessage, message, j)) ==> ghost.annCount == old(ghost.annCount) && ghost.annLocs == old(ghost.annLocs) && ghost.annFiles == old(ghost.annFiles)
+//@   loop 0 invariant ghost.annCount >= old(ghost.annCount) && (forall k string :: k in $visited ==> k in previousNameToOneof)
+//@   loop 0 invariant (exists k string :: k in $visited && !(k in nameToOneof) && !first(previousNameToOneof[k].AsDescriptor()).IsSynthetic()) ==> ghost.annCount > old(ghost.annCount) && message.Location() in ghost.annLocs && message.File().Path() in ghost.annFiles
+//@   loop 0 invariant (forall k string :: k in $visited ==> k in nameToOneof || first(previousNameToOneof[k].AsDescriptor()).IsSynthetic()) ==> ghost.annCount == old(ghost.annCount) && ghost.annLocs == old(ghost.annLocs) && ghost.annFiles == old(ghost.annFiles)
+//
+// SERVICE_NO_DELETE: a deleted service has no location in the current file; the annotation names the current file.
+//@ func handleBreakingServiceNoDelete(responseWriter, request, file, previousFile) (err)
+//@   property C03 C04
+//@   modifies ghost.annCount, ghost.annLocs, ghost.annFiles
+//@   reveal b_serviceDeleted, b_hasServiceName
+//@   ensures deleted-reported {C03}: err == nil && (exists j int :: b_serviceDeleted(previousFile, file, j)) ==> ghost.annCount > old(ghost.annCount) && file.Path() in ghost.annFiles
+//@   ensures nothing-deleted-silent {C04}: !(exists j int :: b_serviceDeleted(previousFile, file, j)) ==> ghost.annCount == old(ghost.annCount) && ghost.annLocs == old(ghost.annLocs) && ghost.annFiles == old(ghost.annFiles)
+//@   loop 0 invariant ghost.annCount >= old(ghost.annCount) && (forall k string :: k in $visited ==> k in previousNameToService)
+//@   loop 0 invariant (exists k string :: k in $visited && !(k in nameToService)) ==> ghost.annCount > old(ghost.annCount) && file.Path() in ghost.annFiles
+//@   loop 0 invariant (forall k string :: k in $visited ==> k in nameToService) ==> ghost.annCount == old(ghost.annCount) && ghost.annLocs == old(ghost.annLocs) && ghost.annFiles == old(ghost.annFiles)
+//
+// RPC_NO_DELETE: reported at the service.
+//@ func handleBreakingRPCNoDelete(responseWriter, request, service, previousService) (err)
+//@   property C03 C04
+//@   canary ensures ghost.annCount == old(ghost.annCount)
+//@   modifies ghost.annCount, ghost.annLocs, ghost.annFiles
+//@   reveal b_rpcDeleted, b_hasMethodName
+//@   ensures deleted-reported {C03}: err == nil && (exists j int :: b_rpcDeleted(previousService, service, j)) ==> ghost.annCount > old(ghost.annCount) && service.Location() in ghost.annLocs && service.File().Path() in ghost.annFiles
+//@   ensures nothing-deleted-silent {C04}: !(exists j int :: b_rpcDeleted(previousService, service, j)) ==> ghost.annCount == old(ghost.annCount) && ghost.annLocs == old(ghost.annLocs) && ghost.annFiles == old(ghost.annFiles)
+//@   loop 0 invariant ghost.annCount >= old(ghost.annCount) && (forall k string :: k in $visited ==> k in previousNameToMethod)
+//@   loop 0 invariant (exists k string :: k in $visited && !(k in nameToMethod)) ==> ghost.annCount > old(ghost.annCount) && service.Location() in ghost.annLocs && service.File().Path() in ghost.annFiles
+//@   loop 0 invariant (forall k string :: k in $visited ==> k in nameToMethod) ==> ghost.annCount == old(ghost.annCount) && ghost.annLocs == old(ghost.annLocs) && ghost.annFiles == old(ghost.annFiles)
+//
+// ENUM_VALUE_NO_DELETE*: the exemption. previousNameToEnumValue holds every name of the deleted number (allow_alias):
+// the name rule exempts only if ALL of them are reserved; the number rule looks at the number only; the plain rule
+// never exempts. (Both flags at once is not a rule: the caller reports it as an error.)
+//@ func isDeletedEnumValueAllowedWithRules(previousNumber, previousNameToEnumValue, enum, allowIfNumberReserved, allowIfNameReserved) (r)
+//@   property C03 C04
+//@   canary ensures !r
+//@   requires !(allowIfNumberReserved && allowIfNameReserved)
+//@   ensures number-rule: allowIfNumberReserved ==> (r <==> b_numReserved(previousNumber, enum.ReservedTagRanges()))
+//@   ensures name-rule-all-names: allowIfNameReserved ==> (r <==> (forall s string :: s in previousNameToEnumValue ==> b_nameReserved(s, enum.ReservedNames())))
+//@   ensures plain-rule-never-exempts: !allowIfNumberReserved && !allowIfNameReserved ==> !r
+//@   loop 0 invariant forall s string :: s in $visited ==> b_nameReserved(s, enum.ReservedNames())
+//
+// names of the aliases, for the message text only
+//@ func getSortedEnumValueNames(nameToEnumValue) (r)
+//@   property C03 C04
+//@   ensures only-names: forall j int :: 0 <= j && j < len(r) ==> r[j] in nameToEnumValue
+//@   ensures all-names: forall s string :: s in nameToEnumValue ==> (exists j int :: 0 <= j && j < len(r) && r[j] == s)
+//@   loop 0 invariant forall j int :: 0 <= j && j < len(names) ==> names[j] in nameToEnumValue
+//@   loop 0 invariant forall s string :: s in $visited ==> (exists j int :: 0 <= j && j < len(names) && names[j] == s)
+//
+//@ func checkEnumValueNoDeleteWithRules(responseWriter, previousEnum, enum, allowIfNumberReserved, allowIfNameReserved) (err)
+//@   property C03 C04
+//@   canary ensures ghost.annCount == old(ghost.annCount)
+//@   modifies ghost.annCount, ghost.annLocs, ghost.annFiles
+//@   requires !(allowIfNumberReserved && allowIfNameReserved)
+//@   reveal b_enumValueDeletionBreaks, b_hasValueNumber, b_enumNumberExempt, b_allNamesOfNumberReserved
+//@   ensures deleted-reported {C03}: err == nil && (exists n int :: b_enumValueDeletionBreaks(previousEnum, enum, n, allowIfNumberReserved, allowIfNameReserved)) ==> ghost.annCount > old(ghost.annCount) && enum.Location() in ghost.annLocs
+//@   ensures deleted-reported-in-current-file {C03}: err == nil && (exists n int :: b_enumValueDeletionBreaks(previousEnum, enum, n, allowIfNumberReserved, allowIfNameReserved)) ==> enum.File().Path() in ghost.annFiles
+//@   ensures nothing-deleted-silent {C04}: !(exists n int :: b_enumValueDeletionBreaks(previousEnum, enum, n, allowIfNumberReserved, allowIfNameReserved)) ==> ghost.annCount == old(ghost.annCount) && ghost.annLocs == old(ghost.annLocs) && ghost.annFiles == old(ghost.annFiles)
+//@   loop 0 invariant ghost.annCount >= old(ghost.annCount) && (forall k int :: k in $visited ==> k in previousNumberToNameToEnumValue)
+//@   loop 0 invariant (exists k int :: k in $visited && !(k in numberToNameToEnumValue) && !b_enumNumberExempt(previousEnum, enum, k, allowIfNumberReserved, allowIfNameReserved)) ==> ghost.annCount > old(ghost.annCount) && enum.Location() in ghost.annLocs
+//@   loop 0 invariant in-current-file {C03}: (exists k int :: k in $visited && !(k in numberToNameToEnumValue) && !b_enumNumberExempt(previousEnum, enum, k, allowIfNumberReserved, allowIfNameReserved)) ==> enum.File().Path() in ghost.annFiles
+//@   loop 0 invariant (forall k int :: k in $visited ==> k in numberToNameToEnumValue || b_enumNumberExempt(previousEnum, enum, k, allowIfNumberReserved, allowIfNameReserved)) ==> ghost.annCount == old(ghost.annCount) && ghost.annLocs == old(ghost.annLocs) && ghost.annFiles == old(ghost.annFiles)
+//
+// The three enum value rules. Plain: every deleted number is reported. Number rule: unless the number is reserved.
+// Name rule: unless ALL names that the number had are reserved.
+//@ func handleBreakingEnumValueNoDelete(responseWriter, request, enum, previousEnum) (err)
+//@   property C03 C04
+//@   modifies ghost.annCount, ghost.annLocs, ghost.annFiles
+//@   reveal b_enumValueDeletionBreaks, b_enumNumberExempt
+//@   ensures deleted-reported {C03}: err == nil && (exists n int :: b_hasValueNumber(previousEnum, n) && !b_hasValueNumber(enum, n)) ==> ghost.annCount > old(ghost.annCount) && enum.Location() in ghost.annLocs
+//@   ensures nothing-deleted-silent {C04}: !(exists n int :: b_hasValueNumber(previousEnum, n) && !b_hasValueNumber(enum, n)) ==> ghost.annCount == old(ghost.annCount) && ghost.annLocs == old(ghost.annLocs) && ghost.annFiles == old(ghost.annFiles)
+//
+//@ func handleBreakingEnumValueNoDeleteUnlessNumberReserved(responseWriter, request, enum, previousEnum) (err)
+//@   property C03 C04
+//@   modifies ghost.annCount, ghost.annLocs, ghost.annFiles
+//@   reveal b_enumValueDeletionBreaks, b_enumNumberExempt
+//@   ensures deleted-reported {C03}: err == nil && (exists n int :: b_hasValueNumber(previousEnum, n) && !b_hasValueNumber(enum, n) && !b_numReserved(n, enum.ReservedTagRanges())) ==> ghost.annCount > old(ghost.annCount) && enum.Location() in ghost.annLocs
+//@   ensures nothing-deleted-silent {C04}: !(exists n int :: b_hasValueNumber(previousEnum, n) && !b_hasValueNumber(enum, n) && !b_numReserved(n, enum.ReservedTagRanges())) ==> ghost.annCount == old(ghost.annCount) && ghost.annLocs == old(ghost.annLocs) && ghost.annFiles == old(ghost.annFiles)
+//
+//@ func handleBreakingEnumValueNoDeleteUnlessNameReserved(responseWriter, request, enum, previousEnum) (err)
+//@   property C03 C04
+//@   modifies ghost.annCount, ghost.annLocs, ghost.annFiles
+//@   reveal b_enumValueDeletionBreaks, b_enumNumberExempt
+//@   ensures deleted-reported {C03}: err == nil && (exists n int :: b_hasValueNumber(previousEnum, n) && !b_hasValueNumber(enum, n) && !b_allNamesOfNumberReserved(previousEnum, enum, n)) ==> ghost.annCount > old(ghost.annCount) && enum.Location() in ghost.annLocs
+//@   ensures nothing-deleted-silent {C04}: !(exists n int :: b_hasValueNumber(previousEnum, n) && !b_hasValueNumber(enum, n) && !b_allNamesOfNumberReserved(previousEnum, enum, n)) ==> ghost.annCount == old(ghost.annCount) && ghost.annLocs == old(ghost.annLocs) && ghost.annFiles == old(ghost.annFiles)
+//
+// Where a deleted nested element is reported: at the closest enclosing message that still exists (then with that
+// message's location), otherwise at the file (no location; the annotation names the file). A top-level element
+// (no dot in its nested name) is always reported at the file.
+//@ pure func getDescriptorAndLocationForDeletedElement(file, previousNestedName) (d, loc, err)
+//@   property C03 C04
+//@   reveal b_messagesOf
+//@   ensures file-or-existing-message: err == nil ==> (d == file && loc == nil) || (exists k string :: k in b_messagesOf(file) && d == b_messagesOf(file)[k] && loc == b_messagesOf(file)[k].Location())
+//@   ensures top-level-at-file: err == nil && !contains(previousNestedName, ".") ==> d == file && loc == nil
+//@   ensures fails-only-with-index: err != nil ==> second(bufprotosource.NestedNameToMessage(file)) != nil
+//
+//@ pure func getDescriptorAndLocationForDeletedMessage(file, nestedNameToMessage, previousNestedName) (d, loc)
+//@   property C03 C04
+//@   ensures file-or-existing-message: (d == file && loc == nil) || (exists k string :: k in nestedNameToMessage && d == nestedNameToMessage[k] && loc == nestedNameToMessage[k].Location())
+//@   ensures top-level-at-file: !contains(previousNestedName, ".") ==> d == file && loc == nil
+//
+// ENUM_NO_DELETE: every enum (nested ones included) of the previous file that the current file no longer has is reported.
+//@ func handleBreakingEnumNoDelete(responseWriter, request, file, previousFile) (err)
+//@   property C03 C04
+//@   canary ensures ghost.annCount == old(ghost.annCount)
+//@   modifies ghost.annCount, ghost.annLocs, ghost.annFiles
+//@   reveal b_enumsOf
+//@   ensures deleted-reported {C03}: err == nil ==> (forall k string :: k in b_enumsOf(previousFile) && !(k in b_enumsOf(file)) ==> ghost.annCount > old(ghost.annCount) && second(getDescriptorAndLocationForDeletedElement(file, k)) in ghost.annLocs && first(getDescriptorAndLocationForDeletedElement(file, k)).File().Path() in ghost.annFiles)
+//@   ensures nothing-deleted-silent {C04}: (forall k string :: k in b_enumsOf(previousFile) ==> k in b_enumsOf(file)) ==> ghost.annCount == old(ghost.annCount) && ghost.annLocs == old(ghost.annLocs) && ghost.annFiles == old(ghost.annFiles)
+//@   loop 0 invariant ghost.annCount >= old(ghost.annCount) && (forall k string :: k in $visited ==> k in previousNestedNameToEnum)
+//@   loop 0 invariant forall k string :: k in $visited && !(k in nestedNameToEnum) ==> ghost.annCount > old(ghost.annCount) && second(getDescriptorAndLocationForDeletedElement(file, k)) in ghost.annLocs && first(getDescriptorAndLocationForDeletedElement(file, k)).File().Path() in ghost.annFiles
+//@   loop 0 invariant (forall k string :: k in $visited ==> k in nestedNameToEnum) ==> ghost.annCount == old(ghost.annCount) && ghost.annLocs == old(ghost.annLocs) && ghost.annFiles == old(ghost.annFiles)
+//
+// EXTENSION_NO_DELETE
+//@ func handleBreakingExtensionNoDelete(responseWriter, request, file, previousFile) (err)
+//@   property C03 C04
+//@   modifies ghost.annCount, ghost.annLocs, ghost.annFiles
+//@   reveal b_extensionsOf
+//@   ensures deleted-reported {C03}: err == nil ==> (forall k string :: k in b_extensionsOf(previousFile) && !(k in b_extensionsOf(file)) ==> ghost.annCount > old(ghost.annCount) && second(getDescriptorAndLocationForDeletedElement(file, k)) in ghost.annLocs && first(getDescriptorAndLocationForDeletedElement(file, k)).File().Path() in ghost.annFiles)
+//@   ensures nothing-deleted-silent {C04}: (forall k string :: k in b_extensionsOf(previousFile) ==> k in b_extensionsOf(file)) ==> ghost.annCount == old(ghost.annCount) && ghost.annLocs == old(ghost.annLocs) && ghost.annFiles == old(ghost.annFiles)
+//@   loop 0 invariant ghost.annCount >= old(ghost.annCount) && (forall k string :: k in $visited ==> k in previousNestedNameToExtension)
+//@   loop 0 invariant forall k string :: k in $visited && !(k in nestedNameToExtension) ==> ghost.annCount > old(ghost.annCount) && second(getDescriptorAndLocationForDeletedElement(file, k)) in ghost.annLocs && first(getDescriptorAndLocationForDeletedElement(file, k)).File().Path() in ghost.annFiles
+//@   loop 0 invariant (forall k string :: k in $visited ==> k in nestedNameToExtension) ==> ghost.annCount == old(ghost.annCount) && ghost.annLocs == old(ghost.annLocs) && ghost.annFiles == old(ghost.annFiles)
+//
+// MESSAGE_NO_DELETE
+//@ func handleBreakingMessageNoDelete(responseWriter, request, file, previousFile) (err)
+//@   property C03 C04
+//@   modifies ghost.annCount, ghost.annLocs, ghost.annFiles
+//@   reveal b_messagesOf
+//@   ensures deleted-reported {C03}: err == nil ==> (forall k string :: k in b_messagesOf(previousFile) && !(k in b_messagesOf(file)) ==> ghost.annCount > old(ghost.annCount) && second(getDescriptorAndLocationForDeletedMessage(file, b_messagesOf(file), k)) in ghost.annLocs && first(getDescriptorAndLocationForDeletedMessage(file, b_messagesOf(file), k)).File().Path() in ghost.annFiles)
+//@   ensures nothing-deleted-silent {C04}: (forall k string :: k in b_messagesOf(previousFile) ==> k in b_messagesOf(file)) ==> ghost.annCount == old(ghost.annCount) && ghost.annLocs == old(ghost.annLocs) && ghost.annFiles == old(ghost.annFiles)
+//@   loop 0 invariant ghost.annCount >= old(ghost.annCount) && (forall k string :: k in $visited ==> k in previousNestedNameToMessage)
+//@   loop 0 invariant forall k string :: k in $visited && !(k in nestedNameToMessage) ==> ghost.annCount > old(ghost.annCount) && second(getDescriptorAndLocationForDeletedMessage(file, nestedNameToMessage, k)) in ghost.annLocs && first(getDescriptorAndLocationForDeletedMessage(file, nestedNameToMessage, k)).File().Path() in ghost.annFiles
+//@   loop 0 invariant (forall k string :: k in $visited ==> k in nestedNameToMessage) ==> ghost.annCount == old(ghost.annCount) && ghost.annLocs == old(ghost.annLocs) && ghost.annFiles == old(ghost.annFiles)
+//
+// FILE_NO_DELETE: every path of the previous image that the current image no longer has is reported, naming the
+// deleted file (as the against file: there is no current element).
+//@ trusted pure interface bufcheckserverutil.Request
+//@ func handleBreakingFileNoDelete(ctx, responseWriter, request) (err)
+//@   property C03 C04
+//@   canary ensures ghost.annCount == old(ghost.annCount)
+//@   modifies ghost.annCount, ghost.annLocs, ghost.annFiles, ghost.b_annAgainstFiles
+//@   ensures deleted-reported {C03}: err == nil ==> (forall j int :: 0 <= j && j < len(request.AgainstProtosourceFiles()) && !(exists i int :: 0 <= i && i < len(request.ProtosourceFiles()) && request.ProtosourceFiles()[i].Path() == request.AgainstProtosourceFiles()[j].Path()) ==> ghost.annCount > old(ghost.annCount) && request.AgainstProtosourceFiles()[j].Path() in ghost.b_annAgainstFiles)
+//@   ensures nothing-deleted-silent {C04}: (forall j int :: 0 <= j && j < len(request.AgainstProtosourceFiles()) ==> (exists i int :: 0 <= i && i < len(request.ProtosourceFiles()) && request.ProtosourceFiles()[i].Path() == request.AgainstProtosourceFiles()[j].Path())) ==> ghost.annCount == old(ghost.annCount) && ghost.annLocs == old(ghost.annLocs) && ghost.annFiles == old(ghost.annFiles) && ghost.b_annAgainstFiles == old(ghost.b_annAgainstFiles)
+//@   loop 0 invariant ghost.annCount >= old(ghost.annCount) && (forall k string :: k in $visited ==> k in previousFilePathToFile)
+//@   loop 0 invariant forall k string :: k in $visited && !(k in filePathToFile) ==> ghost.annCount > old(ghost.annCount) && k in ghost.b_annAgainstFiles
+//@   loop 0 invariant (forall k string :: k in $visited ==> k in filePathToFile) ==> ghost.annCount == old(ghost.annCount) && ghost.annLocs == old(ghost.annLocs) && ghost.annFiles == old(ghost.annFiles) && ghost.b_annAgainstFiles == old(ghost.b_annAgainstFiles)
+//
+// RESERVED_ENUM_NO_DELETE / RESERVED_MESSAGE_NO_DELETE (and EXTENSION_MESSAGE_NO_DELETE): a number that some previous
+// range covered and no current range covers is reported at the element; ranges may be merged, split or widened freely.
+//@ func checkTagRanges(responseWriter, rangeKind, element, previousElement, previousRanges, ranges) (err)
+//@   property C03 C04
+//@   canary ensures ghost.annCount == old(ghost.annCount)
+//@   modifies ghost.annCount, ghost.annLocs, ghost.annFiles
+//@   reveal b_reservedNumberRemoved, b_rangeHasUnreserved, b_wellFormedRanges
+//@   use b_tagRangeWellFormed
+//@   ensures removed-reported {C03}: err == nil && b_reservedNumberRemoved(previousRanges, ranges) ==> ghost.annCount > old(ghost.annCount) && element.Location() in ghost.annLocs && element.File().Path() in ghost.annFiles
+//@   ensures nothing-removed-silent {C04}: !b_reservedNumberRemoved(previousRanges, ranges) ==> ghost.annCount == old(ghost.annCount) && ghost.annLocs == old(ghost.annLocs) && ghost.annFiles == old(ghost.annFiles)
+//@   loop 0 invariant ghost.annCount >= old(ghost.annCount) && b_collapsed(collapsedRanges) && (forall n int :: b_inSimple(n, collapsedRanges) <==> b_numReserved(n, ranges))
+//@   loop 0 invariant (exists j int :: 0 <= j && j < $i && b_rangeHasUnreserved(previousRanges[j], ranges)) ==> ghost.annCount > old(ghost.annCount) && element.Location() in ghost.annLocs && element.File().Path() in ghost.annFiles
+//@   loop 0 invariant (forall j int :: 0 <= j && j < $i ==> !b_rangeHasUnreserved(previousRanges[j], ranges)) ==> ghost.annCount == old(ghost.annCount) && ghost.annLocs == old(ghost.annLocs) && ghost.annFiles == old(ghost.annFiles)
+//
+// which kind of element carries the ranges (message text only; other descriptors are an error)
+//@ func classifyElementRange(element) (elementKind, maxTag, err)
+//@   property C03 C04
+//@   ensures messages-and-enums-only: err == nil ==> elementKind == "message" || elementKind == "enum"
+// (message text only)
+//@ trusted pure func missingRangesString(maxTag, missingRanges) (r)
+//
+//@ func handleBreakingReservedEnumNoDelete(responseWriter, request, enum, previousEnum) (err)
+//@   property C03 C04
+//@   modifies ghost.annCount, ghost.annLocs, ghost.annFiles
+//@   reveal b_reservedNameRemoved, b_nameReserved
+//@   ensures number-removed-reported {C03}: err == nil && b_reservedNumberRemoved(previousEnum.ReservedEnumRanges(), enum.ReservedEnumRanges()) ==> ghost.annCount > old(ghost.annCount) && enum.Location() in ghost.annLocs && enum.File().Path() in ghost.annFiles
+//@   ensures name-removed-reported {C03}: err == nil && b_reservedNameRemoved(previousEnum.ReservedNames(), enum.ReservedNames()) ==> ghost.annCount > old(ghost.annCount) && enum.Location() in ghost.annLocs && enum.File().Path() in ghost.annFiles
+//@   ensures nothing-removed-silent {C04}: !b_reservedNumberRemoved(previousEnum.ReservedEnumRanges(), enum.ReservedEnumRanges()) && !b_reservedNameRemoved(previousEnum.ReservedNames(), enum.ReservedNames()) ==> ghost.annCount == old(ghost.annCount) && ghost.annLocs == old(ghost.annLocs) && ghost.annFiles == old(ghost.annFiles)
+//@   loop 0 invariant ghost.annCount >= old(ghost.annCount) && (forall k string :: k in $visited ==> k in previousValueToReservedName)
+//@   loop 0 invariant b_reservedNumberRemoved(previousEnum.ReservedEnumRanges(), enum.ReservedEnumRanges()) ==> ghost.annCount > old(ghost.annCount) && enum.Location() in ghost.annLocs && enum.File().Path() in ghost.annFiles
+//@   loop 0 invariant (exists k string :: k in $visited && !(k in valueToReservedName)) ==> ghost.annCount > old(ghost.annCount) && enum.Location() in ghost.annLocs && enum.File().Path() in ghost.annFiles
+//@   loop 0 invariant !b_reservedNumberRemoved(previousEnum.ReservedEnumRanges(), enum.ReservedEnumRanges()) && (forall k string :: k in $visited ==> k in valueToReservedName) ==> ghost.annCount == old(ghost.annCount) && ghost.annLocs == old(ghost.annLocs) && ghost.annFiles == old(ghost.annFiles)
+//
+//@ func handleBreakingReservedMessageNoDelete(responseWriter, request, message, previousMessage) (err)
+//@   property C03 C04
+//@   modifies ghost.annCount, ghost.annLocs, ghost.annFiles
+//@   reveal b_reservedNameRemoved, b_nameReserved
+//@   ensures number-removed-reported {C03}: err == nil && b_reservedNumberRemoved(previousMessage.ReservedMessageRanges(), message.ReservedMessageRanges()) ==> ghost.annCount > old(ghost.annCount) && message.Location() in ghost.annLocs && message.File().Path() in ghost.annFiles
+//@   ensures name-removed-reported {C03}: err == nil && b_reservedNameRemoved(previousMessage.ReservedNames(), message.ReservedNames()) ==> ghost.annCount > old(ghost.annCount) && message.Location() in ghost.annLocs && message.File().Path() in ghost.annFiles
+//@   ensures nothing-removed-silent {C04}: !b_reservedNumberRemoved(previousMessage.ReservedMessageRanges(), message.ReservedMessageRanges()) && !b_reservedNameRemoved(previousMessage.ReservedNames(), message.ReservedNames()) ==> ghost.annCount == old(ghost.annCount) && ghost.annLocs == old(ghost.annLocs) && ghost.annFiles == old(ghost.annFiles)
+//@   loop 0 invariant ghost.annCount >= old(ghost.annCount) && (forall k string :: k in $visited ==> k in previousValueToReservedName)
+//@   loop 0 invariant b_reservedNumberRemoved(previousMessage.ReservedMessageRanges(), message.ReservedMessageRanges()) ==> ghost.annCount > old(ghost.annCount) && message.Location() in ghost.annLocs && message.File().Path() in ghost.annFiles
+//@   loop 0 invariant (exists k string :: k in $visited && !(k in valueToReservedName)) ==> ghost.annCount > old(ghost.annCount) && message.Location() in ghost.annLocs && message.File().Path() in ghost.annFiles
+//@   loop 0 invariant !b_reservedNumberRemoved(previousMessage.ReservedMessageRanges(), message.ReservedMessageRanges()) && (forall k string :: k in $visited ==> k in valueToReservedName) ==> ghost.annCount == old(ghost.annCount) && ghost.annLocs == old(ghost.annLocs) && ghost.annFiles == old(ghost.annFiles)
+//
+// EXTENSION_MESSAGE_NO_DELETE: the same check on extension ranges
+//@ func handleBreakingExtensionMessageNoDelete(responseWriter, request, message, previousMessage) (err)
+//@   property C03 C04
+//@   modifies ghost.annCount, ghost.annLocs, ghost.annFiles
+//@   ensures removed-reported {C03}: err == nil && b_reservedNumberRemoved(previousMessage.ExtensionRanges(), message.ExtensionRanges()) ==> ghost.annCount > old(ghost.annCount) && message.Location() in ghost.annLocs && message.File().Path() in ghost.annFiles
+//@   ensures nothing-removed-silent {C04}: !b_reservedNumberRemoved(previousMessage.ExtensionRanges(), message.ExtensionRanges()) ==> ghost.annCount == old(ghost.annCount) && ghost.annLocs == old(ghost.annLocs) && ghost.annFiles == old(ghost.annFiles)
+//
+// PACKAGE_ENUM_NO_DELETE: for every package that still exists, every element of the previous package (over all its
+// files, nested elements included) that the current package no longer has is reported; if the file it was in still
+// exists the report is placed there (closest existing enclosing message, else the file).
+//@ func handleBreakingPackageEnumNoDelete(ctx, responseWriter, request) (err)
+//@   property C03 C04
+//@   modifies ghost.annCount, ghost.annLocs, ghost.annFiles
+//@   reveal b_pkgEnums, b_filesByPath
+//@   ensures deleted-reported {C03}: err == nil ==> (forall p string, k string :: p in b_pkgEnums(request.AgainstProtosourceFiles()) && p in b_pkgEnums(request.ProtosourceFiles()) && k in b_pkgEnums(request.AgainstProtosourceFiles())[p] && !(k in b_pkgEnums(request.ProtosourceFiles())[p]) ==> ghost.annCount > old(ghost.annCount) && (b_pkgEnums(request.AgainstProtosourceFiles())[p][k].File().Path() in b_filesByPath(request.ProtosourceFiles()) ==> second(getDescriptorAndLocationForDeletedElement(b_filesByPath(request.ProtosourceFiles())[b_pkgEnums(request.AgainstProtosourceFiles())[p][k].File().Path()], k)) in ghost.annLocs && first(getDescriptorAndLocationForDeletedElement(b_filesByPath(request.ProtosourceFiles())[b_pkgEnums(request.AgainstProtosourceFiles())[p][k].File().Path()], k)).File().Path() in ghost.annFiles))
+//@   ensures nothing-deleted-silent {C04}: (forall p string, k string :: p in b_pkgEnums(request.AgainstProtosourceFiles()) && p in b_pkgEnums(request.ProtosourceFiles()) && k in b_pkgEnums(request.AgainstProtosourceFiles())[p] ==> k in b_pkgEnums(request.ProtosourceFiles())[p]) ==> ghost.annCount == old(ghost.annCount) && ghost.annLocs == old(ghost.annLocs) && ghost.annFiles == old(ghost.annFiles)
+//@   loop 0 invariant ghost.annCount >= old(ghost.annCount) && (forall p string :: p in $visited ==> p in previousPackageToNestedNameToEnum)
+//@   loop 0 invariant (filePathToFile == nil || (second(bufprotosource.FilePathToFile(request.ProtosourceFiles())) == nil && filePathToFile == b_filesByPath(request.ProtosourceFiles())))
+//@   loop 0 invariant forall p string, k string :: p in $visited && p in packageToNestedNameToEnum && k in previousPackageToNestedNameToEnum[p] && !(k in packageToNestedNameToEnum[p]) ==> ghost.annCount > old(ghost.annCount) && (previousPackageToNestedNameToEnum[p][k].File().Path() in b_filesByPath(request.ProtosourceFiles()) ==> second(getDescriptorAndLocationForDeletedElement(b_filesByPath(request.ProtosourceFiles())[previousPackageToNestedNameToEnum[p][k].File().Path()], k)) in ghost.annLocs && first(getDescriptorAndLocationForDeletedElement(b_filesByPath(request.ProtosourceFiles())[previousPackageToNestedNameToEnum[p][k].File().Path()], k)).File().Path() in ghost.annFiles)
+//@   loop 0 invariant (forall p string, k string :: p in $visited && p in packageToNestedNameToEnum && k in previousPackageToNestedNameToEnum[p] ==> k in packageToNestedNameToEnum[p]) ==> ghost.annCount == old(ghost.annCount) && ghost.annLocs == old(ghost.annLocs) && ghost.annFiles == old(ghost.annFiles)
+//@   loop 1 invariant ghost.annCount >= old(ghost.annCount) && (forall k string :: k in $visited ==> k in previousNestedNameToEnum)
+//@   loop 1 invariant (filePathToFile == nil || (second(bufprotosource.FilePathToFile(request.ProtosourceFiles())) == nil && filePathToFile == b_filesByPath(request.ProtosourceFiles())))
+//@   loop 1 invariant forall p string, k string :: p in $visited0 && p in packageToNestedNameToEnum && k in previousPackageToNestedNameToEnum[p] && !(k in packageToNestedNameToEnum[p]) ==> ghost.annCount > old(ghost.annCount) && (previousPackageToNestedNameToEnum[p][k].File().Path() in b_filesByPath(request.ProtosourceFiles()) ==> second(getDescriptorAndLocationForDeletedElement(b_filesByPath(request.ProtosourceFiles())[previousPackageToNestedNameToEnum[p][k].File().Path()], k)) in ghost.annLocs && first(getDescriptorAndLocationForDeletedElement(b_filesByPath(request.ProtosourceFiles())[previousPackageToNestedNameToEnum[p][k].File().Path()], k)).File().Path() in ghost.annFiles)
+//@   loop 1 invariant forall k string :: k in $visited && !(k in nestedNameToEnum) ==> ghost.annCount > old(ghost.annCount) && (previousNestedNameToEnum[k].File().Path() in b_filesByPath(request.ProtosourceFiles()) ==> second(getDescriptorAndLocationForDeletedElement(b_filesByPath(request.ProtosourceFiles())[previousNestedNameToEnum[k].File().Path()], k)) in ghost.annLocs && first(getDescriptorAndLocationForDeletedElement(b_filesByPath(request.ProtosourceFiles())[previousNestedNameToEnum[k].File().Path()], k)).File().Path() in ghost.annFiles)
+//@   loop 1 invariant (forall p string, k string :: p in $visited0 && p in packageToNestedNameToEnum && k in previousPackageToNestedNameToEnum[p] ==> k in packageToNestedNameToEnum[p]) && (forall k string :: k in $visited ==> k in nestedNameToEnum) ==> ghost.annCount == old(ghost.annCount) && ghost.annLocs == old(ghost.annLocs) && ghost.annFiles == old(ghost.annFiles)
+//
+// PACKAGE_EXTENSION_NO_DELETE: for every package that still exists, every element of the previous package (over all its
+// files, nested elements included) that the current package no longer has is reported; if the file it was in still
+// exists the report is placed there (closest existing enclosing message, else the file).
+//@ func handleBreakingPackageExtensionNoDelete(ctx, responseWriter, request) (err)
+//@   property C03 C04
+//@   modifies ghost.annCount, ghost.annLocs, ghost.annFiles
+//@   reveal b_pkgExtensions, b_filesByPath
+//@   ensures deleted-reported {C03}: err == nil ==> (forall p string, k string :: p in b_pkgExtensions(request.AgainstProtosourceFiles()) && p in b_pkgExtensions(request.ProtosourceFiles()) && k in b_pkgExtensions(request.AgainstProtosourceFiles())[p] && !(k in b_pkgExtensions(request.ProtosourceFiles())[p]) ==> ghost.annCount > old(ghost.annCount) && (b_pkgExtensions(request.AgainstProtosourceFiles())[p][k].File().Path() in b_filesByPath(request.ProtosourceFiles()) ==> second(getDescriptorAndLocationForDeletedElement(b_filesByPath(request.ProtosourceFiles())[b_pkgExtensions(request.AgainstProtosourceFiles())[p][k].File().Path()], k)) in ghost.annLocs && first(getDescriptorAndLocationForDeletedElement(b_filesByPath(request.ProtosourceFiles())[b_pkgExtensions(request.AgainstProtosourceFiles())[p][k].File().Path()], k)).File().Path() in ghost.annFiles))
+//@   ensures nothing-deleted-silent {C04}: (forall p string, k string :: p in b_pkgExtensions(request.AgainstProtosourceFiles()) && p in b_pkgExtensions(request.ProtosourceFiles()) && k in b_pkgExtensions(request.AgainstProtosourceFiles())[p] ==> k in b_pkgExtensions(request.ProtosourceFiles())[p]) ==> ghost.annCount == old(ghost.annCount) && ghost.annLocs == old(ghost.annLocs) && ghost.annFiles == old(ghost.annFiles)
+//@   loop 0 invariant ghost.annCount >= old(ghost.annCount) && (forall p string :: p in $visited ==> p in previousPackageToNestedNameToExtension)
+//@   loop 0 invariant (filePathToFile == nil || (second(bufprotosource.FilePathToFile(request.ProtosourceFiles())) == nil && filePathToFile == b_filesByPath(request.ProtosourceFiles())))
+//@   loop 0 invariant forall p string, k string :: p in $visited && p in packageToNestedNameToExtension && k in previousPackageToNestedNameToExtension[p] && !(k in packageToNestedNameToExtension[p]) ==> ghost.annCount > old(ghost.annCount) && (previousPackageToNestedNameToExtension[p][k].File().Path() in b_filesByPath(request.ProtosourceFiles()) ==> second(getDescriptorAndLocationForDeletedElement(b_filesByPath(request.ProtosourceFiles())[previousPackageToNestedNameToExtension[p][k].File().Path()], k)) in ghost.annLocs && first(getDescriptorAndLocationForDeletedElement(b_filesByPath(request.ProtosourceFiles())[previousPackageToNestedNameToExtension[p][k].File().Path()], k)).File().Path() in ghost.annFiles)
+//@   loop 0 invariant (forall p string, k string :: p in $visited && p in packageToNestedNameToExtension && k in previousPackageToNestedNameToExtension[p] ==> k in packageToNestedNameToExtension[p]) ==> ghost.annCount == old(ghost.annCount) && ghost.annLocs == old(ghost.annLocs) && ghost.annFiles == old(ghost.annFiles)
+//@   loop 1 invariant ghost.annCount >= old(ghost.annCount) && (forall k string :: k in $visited ==> k in previousNestedNameToExtension)
+//@   loop 1 invariant (filePathToFile == nil || (second(bufprotosource.FilePathToFile(request.ProtosourceFiles())) == nil && filePathToFile == b_filesByPath(request.ProtosourceFiles())))
+//@   loop 1 invariant forall p string, k string :: p in $visited0 && p in packageToNestedNameToExtension && k in previousPackageToNestedNameToExtension[p] && !(k in packageToNestedNameToExtension[p]) ==> ghost.annCount > old(ghost.annCount) && (previousPackageToNestedNameToExtension[p][k].File().Path() in b_filesByPath(request.ProtosourceFiles()) ==> second(getDescriptorAndLocationForDeletedElement(b_filesByPath(request.ProtosourceFiles())[previousPackageToNestedNameToExtension[p][k].File().Path()], k)) in ghost.annLocs && first(getDescriptorAndLocationForDeletedElement(b_filesByPath(request.ProtosourceFiles())[previousPackageToNestedNameToExtension[p][k].File().Path()], k)).File().Path() in ghost.annFiles)
+//@   loop 1 invariant forall k string :: k in $visited && !(k in nestedNameToExtension) ==> ghost.annCount > old(ghost.annCount) && (previousNestedNameToExtension[k].File().Path() in b_filesByPath(request.ProtosourceFiles()) ==> second(getDescriptorAndLocationForDeletedElement(b_filesByPath(request.ProtosourceFiles())[previousNestedNameToExtension[k].File().Path()], k)) in ghost.annLocs && first(getDescriptorAndLocationForDeletedElement(b_filesByPath(request.ProtosourceFiles())[previousNestedNameToExtension[k].File().Path()], k)).File().Path() in ghost.annFiles)
+//@   loop 1 invariant (forall p string, k string :: p in $visited0 && p in packageToNestedNameToExtension && k in previousPackageToNestedNameToExtension[p] ==> k in packageToNestedNameToExtension[p]) && (forall k string :: k in $visited ==> k in nestedNameToExtension) ==> ghost.annCount == old(ghost.annCount) && ghost.annLocs == old(ghost.annLocs) && ghost.annFiles == old(ghost.annFiles)
+//
+// PACKAGE_MESSAGE_NO_DELETE: for every package that still exists, every element of the previous package (over all its
+// files, nested elements included) that the current package no longer has is reported; if the file it was in still
+// exists the report is placed there (closest existing enclosing message, else the file).
+//@ func handleBreakingPackageMessageNoDelete(ctx, responseWriter, request) (err)
+//@   property C03 C04
+//@   modifies ghost.annCount, ghost.annLocs, ghost.annFiles
+//@   reveal b_pkgMessages, b_filesByPath
+//@   ensures deleted-reported {C03}: err == nil ==> (forall p string, k string :: p in b_pkgMessages(request.AgainstProtosourceFiles()) && p in b_pkgMessages(request.ProtosourceFiles()) && k in b_pkgMessages(request.AgainstProtosourceFiles())[p] && !(k in b_pkgMessages(request.ProtosourceFiles())[p]) ==> ghost.annCount > old(ghost.annCount) && (b_pkgMessages(request.AgainstProtosourceFiles())[p][k].File().Path() in b_filesByPath(request.ProtosourceFiles()) ==> second(getDescriptorAndLocationForDeletedMessage(b_filesByPath(request.ProtosourceFiles())[b_pkgMessages(request.AgainstProtosourceFiles())[p][k].File().Path()], b_pkgMessages(request.ProtosourceFiles())[p], k)) in ghost.annLocs && first(getDescriptorAndLocationForDeletedMessage(b_filesByPath(request.ProtosourceFiles())[b_pkgMessages(request.AgainstProtosourceFiles())[p][k].File().Path()], b_pkgMessages(request.ProtosourceFiles())[p], k)).File().Path() in ghost.annFiles))
+//@   ensures nothing-deleted-silent {C04}: (forall p string, k string :: p in b_pkgMessages(request.AgainstProtosourceFiles()) && p in b_pkgMessages(request.ProtosourceFiles()) && k in b_pkgMessages(request.AgainstProtosourceFiles())[p] ==> k in b_pkgMessages(request.ProtosourceFiles())[p]) ==> ghost.annCount == old(ghost.annCount) && ghost.annLocs == old(ghost.annLocs) && ghost.annFiles == old(ghost.annFiles)
+//@   loop 0 invariant ghost.annCount >= old(ghost.annCount) && (forall p string :: p in $visited ==> p in previousPackageToNestedNameToMessage)
+//@   loop 0 invariant (filePathToFile == nil || (second(bufprotosource.FilePathToFile(request.ProtosourceFiles())) == nil && filePathToFile == b_filesByPath(request.ProtosourceFiles())))
+//@   loop 0 invariant forall p string, k string :: p in $visited && p in packageToNestedNameToMessage && k in previousPackageToNestedNameToMessage[p] && !(k in packageToNestedNameToMessage[p]) ==> ghost.annCount > old(ghost.annCount) && (previousPackageToNestedNameToMessage[p][k].File().Path() in b_filesByPath(request.ProtosourceFiles()) ==> second(getDescriptorAndLocationForDeletedMessage(b_filesByPath(request.ProtosourceFiles())[previousPackageToNestedNameToMessage[p][k].File().Path()], packageToNestedNameToMessage[p], k)) in ghost.annLocs && first(getDescriptorAndLocationForDeletedMessage(b_filesByPath(request.ProtosourceFiles())[previousPackageToNestedNameToMessage[p][k].File().Path()], packageToNestedNameToMessage[p], k)).File().Path() in ghost.annFiles)
+//@   loop 0 invariant (forall p string, k string :: p in $visited && p in packageToNestedNameToMessage && k in previousPackageToNestedNameToMessage[p] ==> k in packageToNestedNameToMessage[p]) ==> ghost.annCount == old(ghost.annCount) && ghost.annLocs == old(ghost.annLocs) && ghost.annFiles == old(ghost.annFiles)
+//@   loop 1 invariant ghost.annCount >= old(ghost.annCount) && (forall k string :: k in $visited ==> k in previousNestedNameToMessage)
+//@   loop 1 invariant (filePathToFile == nil || (second(bufprotosource.FilePathToFile(request.ProtosourceFiles())) == nil && filePathToFile == b_filesByPath(request.ProtosourceFiles())))
+//@   loop 1 invariant forall p string, k string :: p in $visited0 && p in packageToNestedNameToMessage && k in previousPackageToNestedNameToMessage[p] && !(k in packageToNestedNameToMessage[p]) ==> ghost.annCount > old(ghost.annCount) && (previousPackageToNestedNameToMessage[p][k].File().Path() in b_filesByPath(request.ProtosourceFiles()) ==> second(getDescriptorAndLocationForDeletedMessage(b_filesByPath(request.ProtosourceFiles())[previousPackageToNestedNameToMessage[p][k].File().Path()], packageToNestedNameToMessage[p], k)) in ghost.annLocs && first(getDescriptorAndLocationForDeletedMessage(b_filesByPath(request.ProtosourceFiles())[previousPackageToNestedNameToMessage[p][k].File().Path()], packageToNestedNameToMessage[p], k)).File().Path() in ghost.annFiles)
+//@   loop 1 invariant forall k string :: k in $visited && !(k in nestedNameToMessage) ==> ghost.annCount > old(ghost.annCount) && (previousNestedNameToMessage[k].File().Path() in b_filesByPath(request.ProtosourceFiles()) ==> second(getDescriptorAndLocationForDeletedMessage(b_filesByPath(request.ProtosourceFiles())[previousNestedNameToMessage[k].File().Path()], nestedNameToMessage, k)) in ghost.annLocs && first(getDescriptorAndLocationForDeletedMessage(b_filesByPath(request.ProtosourceFiles())[previousNestedNameToMessage[k].File().Path()], nestedNameToMessage, k)).File().Path() in ghost.annFiles)
+//@   loop 1 invariant (forall p string, k string :: p in $visited0 && p in packageToNestedNameToMessage && k in previousPackageToNestedNameToMessage[p] ==> k in packageToNestedNameToMessage[p]) && (forall k string :: k in $visited ==> k in nestedNameToMessage) ==> ghost.annCount == old(ghost.annCount) && ghost.annLocs == old(ghost.annLocs) && ghost.annFiles == old(ghost.annFiles)
+//
+// PACKAGE_SERVICE_NO_DELETE: for every package that still exists, every element of the previous package (over all its
+// files, nested elements included) that the current package no longer has is reported; if the file it was in still
+// exists the report is placed there (closest existing enclosing message, else the file).
+//@ func handleBreakingPackageServiceNoDelete(ctx, responseWriter, request) (err)
+//@   property C03 C04
+//@   modifies ghost.annCount, ghost.annLocs, ghost.annFiles
+//@   reveal b_pkgServices, b_filesByPath
+//@   ensures deleted-reported {C03}: err == nil ==> (forall p string, k string :: p in b_pkgServices(request.AgainstProtosourceFiles()) && p in b_pkgServices(request.ProtosourceFiles()) && k in b_pkgServices(request.AgainstProtosourceFiles())[p] && !(k in b_pkgServices(request.ProtosourceFiles())[p]) ==> ghost.annCount > old(ghost.annCount) && (b_pkgServices(request.AgainstProtosourceFiles())[p][k].File().Path() in b_filesByPath(request.ProtosourceFiles()) ==> b_pkgServices(request.AgainstProtosourceFiles())[p][k].File().Path() in ghost.annFiles))
+//@   ensures nothing-deleted-silent {C04}: (forall p string, k string :: p in b_pkgServices(request.AgainstProtosourceFiles()) && p in b_pkgServices(request.ProtosourceFiles()) && k in b_pkgServices(request.AgainstProtosourceFiles())[p] ==> k in b_pkgServices(request.ProtosourceFiles())[p]) ==> ghost.annCount == old(ghost.annCount) && ghost.annLocs == old(ghost.annLocs) && ghost.annFiles == old(ghost.annFiles)
+//@   loop 0 invariant ghost.annCount >= old(ghost.annCount) && (forall p string :: p in $visited ==> p in previousPackageToNameToService)
+//@   loop 0 invariant (filePathToFile == nil || (second(bufprotosource.FilePathToFile(request.ProtosourceFiles())) == nil && filePathToFile == b_filesByPath(request.ProtosourceFiles())))
+//@   loop 0 invariant forall p string, k string :: p in $visited && p in packageToNameToService && k in previousPackageToNameToService[p] && !(k in packageToNameToService[p]) ==> ghost.annCount > old(ghost.annCount) && (previousPackageToNameToService[p][k].File().Path() in b_filesByPath(request.ProtosourceFiles()) ==> previousPackageToNameToService[p][k].File().Path() in ghost.annFiles)
+//@   loop 0 invariant (forall p string, k string :: p in $visited && p in packageToNameToService && k in previousPackageToNameToService[p] ==> k in packageToNameToService[p]) ==> ghost.annCount == old(ghost.annCount) && ghost.annLocs == old(ghost.annLocs) && ghost.annFiles == old(ghost.annFiles)
+//@   loop 1 invariant ghost.annCount >= old(ghost.annCount) && (forall k string :: k in $visited ==> k in previousNameToService)
+//@   loop 1 invariant (filePathToFile == nil || (second(bufprotosource.FilePathToFile(request.ProtosourceFiles())) == nil && filePathToFile == b_filesByPath(request.ProtosourceFiles())))
+//@   loop 1 invariant forall p string, k string :: p in $visited0 && p in packageToNameToService && k in previousPackageToNameToService[p] && !(k in packageToNameToService[p]) ==> ghost.annCount > old(ghost.annCount) && (previousPackageToNameToService[p][k].File().Path() in b_filesByPath(request.ProtosourceFiles()) ==> previousPackageToNameToService[p][k].File().Path() in ghost.annFiles)
+//@   loop 1 invariant forall k string :: k in $visited && !(k in nameToService) ==> ghost.annCount > old(ghost.annCount) && (previousNameToService[k].File().Path() in b_filesByPath(request.ProtosourceFiles()) ==> previousNameToService[k].File().Path() in ghost.annFiles)
+//@   loop 1 invariant (forall p string, k string :: p in $visited0 && p in packageToNameToService && k in previousPackageToNameToService[p] ==> k in packageToNameToService[p]) && (forall k string :: k in $visited ==> k in nameToService) ==> ghost.annCount == old(ghost.annCount) && ghost.annLocs == old(ghost.annLocs) && ghost.annFiles == old(ghost.annFiles)
+//
+// ---- tag_ranges.go ----
+//@ pure func (simpleTagRange) Start() (res)
+//@   property C03 C04
+//@   ensures res == r[0]
+//@ pure func (simpleTagRange) End() (res)
+//@   property C03 C04
+//@   ensures res == r[1]
+//
+// collapseRanges: the same set of numbers, as ascending ranges that neither overlap nor touch.
+// TRUSTED: the body is outside the engine's fragment ("element write through a slice that is not locally created":
+// sortedRanges[j][1] = ... writes into an array element of a slice); the clause is what findMissing relies on.
+//@ trusted func collapseRanges(ranges) (r)
+//@   requires b_wellFormedRanges(ranges)
+//@   ensures same-numbers: forall n int :: b_inSimple(n, r) <==> b_numReserved(n, ranges)
+//@   ensures collapsed: b_collapsed(r)
+//
+// findMissing: the result is empty only if every number of [start, end] is in a collapsed range, and if it is not
+// empty its first range starts at a number of [start, end] that is in none.
+//@ func findMissing(start, end, collapsedRanges) (r)
+//@   property C03 C04
+//@   requires start <= end && b_collapsed(collapsedRanges)
+//@   reveal b_inSimple, b_collapsed
+//@   closure 0 ensures r == (collapsedRanges[i].End() >= start)
+//@   ensures complete {C03}: forall n int :: start <= n && n <= end && !b_inSimple(n, collapsedRanges) ==> len(r) > 0
+//@   ensures sound {C04}: len(r) > 0 ==> start <= r[0].Start() && r[0].Start() <= end && !b_inSimple(r[0].Start(), collapsedRanges)
+//@   loop 0 invariant 0 <= index && index < len(collapsedRanges) && entryStart == collapsedRanges[index].Start() && entryEnd == collapsedRanges[index].End() && start <= end && old(start) <= start && start <= entryEnd
+//@   loop 0 invariant forall a int :: 0 <= a && a < index ==> collapsedRanges[a].End() < start
+//@   loop 0 invariant forall n int :: old(start) <= n && n < start && !b_inSimple(n, collapsedRanges) ==> len(missingRanges) > 0
+//@   loop 0 invariant len(missingRanges) > 0 ==> old(start) <= missingRanges[0].Start() && missingRanges[0].Start() < start && !b_inSimple(missingRanges[0].Start(), collapsedRanges)
+//
+// PACKAGE_NO_DELETE: every package of the previous image that no file of the current image declares is reported.
+// (Which previous file is named as the against file is not claimed: the choice goes through slices.Sort, whose std
+// contract does not elaborate for []string ("== on different sorts String vs Ref"); the statement is abstracted.)
+//@ func handleBreakingPackageNoDelete(ctx, responseWriter, request) (err)
+//@   property C03 C04
+//@   modifies heap, ghost.annCount, ghost.annLocs, ghost.annFiles, ghost.b_annAgainstFiles
+//@   reveal b_pkgFiles
+//@   skip "slices.Sort(previousDescriptorsFileNames)"
+//@   ensures deleted-reported {C03}: err == nil ==> (forall p string :: p in b_pkgFiles(request.AgainstProtosourceFiles()) && !(p in b_pkgFiles(request.ProtosourceFiles())) ==> ghost.annCount > old(ghost.annCount))
+//@   ensures nothing-deleted-silent {C04}: (forall p string :: p in b_pkgFiles(request.AgainstProtosourceFiles()) ==> p in b_pkgFiles(request.ProtosourceFiles())) ==> ghost.annCount == old(ghost.annCount) && ghost.annLocs == old(ghost.annLocs) && ghost.annFiles == old(ghost.annFiles) && ghost.b_annAgainstFiles == old(ghost.b_annAgainstFiles)
+//@   loop 0 invariant ghost.annCount >= old(ghost.annCount) && (forall p string :: p in $visited ==> p in previousPackageToFiles)
+//@   loop 0 invariant forall p string :: p in $visited && !(p in packageToFiles) ==> ghost.annCount > old(ghost.annCount)
+//@   loop 0 invariant (forall p string :: p in $visited ==> p in packageToFiles) ==> ghost.annCount == old(ghost.annCount) && ghost.annLocs == old(ghost.annLocs) && ghost.annFiles == old(ghost.annFiles) && ghost.b_annAgainstFiles == old(ghost.b_annAgainstFiles)
+//@   loop 1 invariant len(previousDescriptors) == len(previousFiles)
